@@ -18,10 +18,18 @@ Pws == << <<>>, <<117, 115, 101, 114>>, <<112, 40, 119, 41, 92>>, <<112, 228, 22
 Ps == <<0 - 4, 0 - 3904, 0 - 3900, 0 - 3888, 0 - 3648>>
 Case(k) == [strength |-> Strengths[(k % 4) + 1], cfg |-> Cfgs[((k \div 4) % Len(Cfgs)) + 1],
             user |-> Pws[((k \div 3) % Len(Pws)) + 1], owner |-> Pws[((k \div 5 + 1) % Len(Pws)) + 1], p |-> Ps[((k \div 7) % Len(Ps)) + 1]]
+\* corners the stride may step over: a long password on ONE side only (the other password must not open the file through
+\* the same derivation), for each revision 2-4 strength
+Straddle == Pws[7]
+Corners == << [strength |-> "rc4_40", cfg |-> Cfgs[1], user |-> Pws[2], owner |-> Straddle, p |-> 0 - 4],
+              [strength |-> "aes128", cfg |-> Cfgs[2], user |-> Straddle, owner |-> Pws[3], p |-> 0 - 3904],
+              [strength |-> "rc4_128", cfg |-> Cfgs[4], user |-> Pws[6], owner |-> Straddle, p |-> 0 - 3900],
+              [strength |-> "aes128", cfg |-> Cfgs[1], user |-> <<>>, owner |-> Pws[6], p |-> 0 - 3888] >>
 VARIABLE done
 Init == done = FALSE
 Next == /\ ~done
-        /\ \A k \in 1..(20 * Stride) : PrintT(<<"REPLAY", ToJson(Case(k * 3 + (k \div 20)))>>)
+        /\ \A k \in 1..(16 * Stride) : PrintT(<<"REPLAY", ToJson(Case(k * 3 + (k \div 20)))>>)
+        /\ \A k \in 1..Len(Corners) : PrintT(<<"REPLAY", ToJson(Corners[k])>>)
         /\ done' = TRUE
 Spec == Init /\ [][Next]_done
 =============================================================================
